@@ -17,7 +17,7 @@ use rustc_middle::mir::{
     self, AggregateKind, AssertKind, BinOp, Body, Const, Operand, Place, ProjectionElem, Rvalue,
     StatementKind, TerminatorKind,
 };
-use rustc_middle::ty::print::{with_crate_prefix, with_no_trimmed_paths};
+use rustc_middle::ty::print::{with_crate_prefix, with_no_trimmed_paths, PrintTraitRefExt};
 use rustc_middle::ty::{self, Ty, TyCtxt};
 use std::collections::BTreeMap;
 use std::fmt::Write as _;
@@ -142,6 +142,64 @@ impl<'tcx> Cx<'tcx> {
     fn path(&self, did: DefId) -> String {
         fix_crate(with_crate_prefix!(with_no_trimmed_paths!(self.tcx.def_path_str(did))), &self.krate)
     }
+    /// Stable, module-independent name for functions of kanata crates:
+    ///   trait impl method  -> `<SelfTy as Trait>::name`
+    ///   inherent method    -> `<adt path>::name`
+    ///   closure            -> `<parent name>::{closure#k}`
+    /// (rustc's def_path_str names impl items after the *module* of the impl block when it differs
+    /// from the type's module, which makes two `From` impls in one file collide.)
+    fn fn_path(&self, did: DefId) -> String {
+        let tcx = self.tcx;
+        if !tcx.crate_name(did.krate).as_str().starts_with("kanata") {
+            return self.path(did);
+        }
+        let kind = tcx.def_kind(did);
+        match kind {
+            DefKind::Closure => {
+                let parent = tcx.parent(did);
+                let dis = tcx.def_key(did).disambiguated_data.disambiguator;
+                format!("{}::{{closure#{}}}", self.fn_path(parent), dis)
+            }
+            DefKind::AssocFn => {
+                let parent = tcx.parent(did);
+                let name = tcx.item_name(did).to_string();
+                match tcx.def_kind(parent) {
+                    DefKind::Impl { of_trait: true } => {
+                        let tr = tcx.impl_trait_ref(parent).instantiate_identity().skip_norm_wip();
+                        let st = self.tystr(tr.self_ty());
+                        let trs = fix_crate(
+                            with_crate_prefix!(with_no_trimmed_paths!(tr
+                                .print_only_trait_path()
+                                .to_string())),
+                            &self.krate_of(did),
+                        );
+                        format!("<{} as {}>::{}", st, trs, name)
+                    }
+                    DefKind::Impl { .. } => {
+                        let st = tcx.type_of(parent).instantiate_identity().skip_norm_wip();
+                        if let ty::Adt(adt, _) = st.kind() {
+                            format!("{}::{}", self.path(adt.did()), name)
+                        } else {
+                            format!("<{}>::{}", self.tystr(st), name)
+                        }
+                    }
+                    _ => self.path(did),
+                }
+            }
+            DefKind::Fn => {
+                let parent = tcx.parent(did);
+                if matches!(tcx.def_kind(parent), DefKind::Fn | DefKind::AssocFn | DefKind::Closure) {
+                    format!("{}::{}", self.fn_path(parent), tcx.item_name(did))
+                } else {
+                    self.path(did)
+                }
+            }
+            _ => self.path(did),
+        }
+    }
+    fn krate_of(&self, did: DefId) -> String {
+        self.tcx.crate_name(did.krate).to_string()
+    }
     fn tystr(&self, t: Ty<'tcx>) -> String {
         fix_crate(with_crate_prefix!(with_no_trimmed_paths!(t.to_string())), &self.krate)
     }
@@ -228,7 +286,7 @@ impl<'tcx> Cx<'tcx> {
                     ty::Closure(cdid, _) => J::O(vec![
                         ("f", s(format!("{}", f.as_usize()))),
                         ("i", J::N(f.as_usize() as i128)),
-                        ("clo", s(self.path(*cdid))),
+                        ("clo", s(self.fn_path(*cdid))),
                     ]),
                     _ => J::O(vec![
                         ("f", s(format!("{}", f.as_usize()))),
@@ -269,7 +327,7 @@ impl<'tcx> Cx<'tcx> {
         let mut fields: Vec<(&'static str, J)> = vec![("ty", s(self.tystr(cty)))];
         // function item / closure constants
         if let ty::FnDef(fd, args) = cty.kind() {
-            fields.push(("fn", s(self.path(*fd))));
+            fields.push(("fn", s(self.fn_path(*fd))));
             let resolved = ty::Instance::try_resolve(
                 tcx,
                 ty::TypingEnv::post_analysis(tcx, owner),
@@ -278,7 +336,7 @@ impl<'tcx> Cx<'tcx> {
             )
             .ok()
             .flatten()
-            .map(|i| self.path(i.def_id()));
+            .map(|i| self.fn_path(i.def_id()));
             fields.push(("rfn", opt_s(resolved)));
             return J::O(vec![("c", J::O(fields))]);
         }
@@ -390,7 +448,7 @@ impl<'tcx> Cx<'tcx> {
                     }
                     AggregateKind::Closure(cdid, _) => J::O(vec![
                         ("k", s("agg")),
-                        ("clo", s(self.path(*cdid))),
+                        ("clo", s(self.fn_path(*cdid))),
                         ("ops", J::A(ops)),
                     ]),
                     AggregateKind::Tuple => {
@@ -509,7 +567,7 @@ impl<'tcx> Cx<'tcx> {
                 TerminatorKind::Call { func, args, destination, target, .. } => {
                     tv.push(("k", s("call")));
                     if let Some((cd, gargs)) = func.const_fn_def() {
-                        tv.push(("f", s(self.path(cd))));
+                        tv.push(("f", s(self.fn_path(cd))));
                         let resolved = ty::Instance::try_resolve(
                             tcx,
                             ty::TypingEnv::post_analysis(tcx, owner),
@@ -519,7 +577,7 @@ impl<'tcx> Cx<'tcx> {
                         .ok()
                         .flatten();
                         if let Some(inst) = resolved {
-                            let rp = self.path(inst.def_id());
+                            let rp = self.fn_path(inst.def_id());
                             tv.push(("r", s(rp)));
                             if let ty::InstanceKind::Virtual(..) = inst.def {
                                 tv.push(("virt", J::B(true)));
@@ -750,7 +808,7 @@ impl rustc_driver::Callbacks for Cb {
             if tcx.is_coroutine(did) {
                 continue;
             }
-            let name = cx.path(did);
+            let name = cx.fn_path(did);
             let body = tcx.optimized_mir(did);
             let sm = tcx.sess.source_map();
             let (lo_line, _macs, file) = cx.line_info(body.span);
@@ -776,8 +834,8 @@ impl rustc_driver::Callbacks for Cb {
             }
             if kind == DefKind::Closure {
                 let parent = tcx.typeck_root_def_id(did);
-                v.push(("parent", s(cx.path(parent))));
-                v.push(("iparent", s(cx.path(tcx.parent(did)))));
+                v.push(("parent", s(cx.fn_path(parent))));
+                v.push(("iparent", s(cx.fn_path(tcx.parent(did)))));
                 let caps: Vec<J> = tcx
                     .closure_captures(*ldid)
                     .iter()
